@@ -111,6 +111,17 @@ def flow_matrix():
                 }
                 for pos, body in progs.items():
                     out.append(("%s<-%s/%s/%s" % (T, S, kind, pos), FLOW_PRE + body, ok))
+            # the value is an outer variable of type S whose NAME is re-defined at type T in an inner scope that has ended
+            for shadow, inner in (("parameter", "def inner(w: %s) -> Int => 1\n" % T), ("lambda-parameter", "def hof(fn: %s -> Int) -> Int => 1\ndef u1 := hof(\\w: %s => 1)\n" % (T, T)),
+                                  ("branch-definition", "if vi > 0 then\n    def w: %s := %s\n    print(1)\n" % (T, FLOW_CONFORMING[T])),
+                                  ("function-local", "def inner() -> Int =>\n    def w: %s := %s\n    1\n" % (T, FLOW_CONFORMING[T])),
+                                  ("loop-definition", "for i9 in 0 .. 2 do\n    def w: %s := %s\n" % (T, FLOW_CONFORMING[T]))):
+                for pos, use in (("argument", "def take(p: %s) -> Int => 1\ndef r := take(w)\n" % T), ("initialiser", "def r: %s := w\n" % T),
+                                 ("return", "def q() -> %s => w\n" % T), ("method-argument", "class Tk\n    def take(fin self, p: %s) -> Int => 1\ndef r := Tk().take(w)\n" % T)):
+                    text = FLOW_PRE + "def w: %s := %s\n" % (S, FLOW_CONFORMING[S]) + inner + use
+                    out.append(("%s<-%s/shadowed-by-%s/%s" % (T, S, shadow, pos), text, ok))
+                    text2 = FLOW_PRE + inner.replace("def w:", "def w:") + "def w: %s := %s\n" % (S, FLOW_CONFORMING[S]) + use
+                    out.append(("%s<-%s/defined-after-%s/%s" % (T, S, shadow, pos), text2, ok))
     return out
 
 
